@@ -708,7 +708,18 @@ fn build_pre(s: &Spec, r: &mut Report) -> Result<(World, Ctx), String> {
     let holder = node
         .with_channel_base(&id, |b| Ok(b.get_channel_basepoints()))
         .map_err(|e| format!("harness:basepoints: {:?}", e))?;
-    match report::catch(|| node.setup_channel(id.clone(), None, setup.clone(), &DerivationPath::master())) {
+    // every third channel also gets a permanent id (the temporary-to-permanent flow of LDK-style nodes);
+    // the channel's keys must stay those of its initial id, also on the signers restored from the store
+    let permanent = if s.dbid % 3 == 0 {
+        let mut b = [0x70u8; 32];
+        b[..8].copy_from_slice(&s.dbid.to_le_bytes());
+        b[8..16].copy_from_slice(&s.peer_id[1..9]);
+        r.count("setup.with_permanent_channel_id");
+        Some(ChannelId::new(&b))
+    } else {
+        None
+    };
+    match report::catch(|| node.setup_channel(id.clone(), permanent, setup.clone(), &DerivationPath::master())) {
         Ok(Ok(_)) => r.count(&format!("setup.accepted.{:?}", s.ctype)),
         Ok(Err(e)) => {
             r.count("setup.refused");
@@ -934,6 +945,102 @@ fn judge_phase2(
         }
     }
     canon
+}
+
+/// The same content through the protocol handler (`SignRemoteCommitmentTx2`), on another signer restored from
+/// the pre-state store.  On the wire HTLC amounts are in msat: every amount is sent with a random sub-satoshi
+/// remainder, which BOLT-3 rounds down, so the canonical transaction - and what the signatures must verify
+/// against - is the same as for the semantic entry point.
+fn handler_entry(ci: &CaseInfo, ctx: &Ctx, world: &World, rng: &mut Rng, r: &mut Report) {
+    use lightning_signer::bitcoin::BlockHash;
+    use vls_protocol::model::{self, Bip32KeyVersion, Htlc, PubKey};
+    use vls_protocol::msgs::{self, Message};
+    use vls_protocol::serde_bolt::Array;
+    use vls_protocol_signer::approver::PositiveApprover;
+    use vls_protocol_signer::handler::{Handler, InitHandler, RootHandler};
+    let s = ci.spec;
+    let c = &s.content;
+    let node = match fresh(world, ctx) {
+        Ok(n) => n,
+        Err(_) => return,
+    };
+    let point = ctx.point(s.target_n);
+    let built = report::catch(|| {
+        let mut init = InitHandler::new(0, node.clone(), Arc::new(PositiveApprover()), 6);
+        init.handle(Message::HsmdInit(msgs::HsmdInit {
+            key_version: Bip32KeyVersion { pubkey_version: 0x043587CF, privkey_version: 0x04358394 },
+            chain_params: BlockHash::all_zeros(),
+            encryption_key: None,
+            dev_privkey: None,
+            dev_bip32_seed: None,
+            dev_channel_secrets: None,
+            dev_channel_secrets_shaseed: None,
+            hsm_wire_min_version: 2,
+            hsm_wire_max_version: 6,
+        }))
+        .map_err(|e| format!("{:?}", e))?;
+        let root: RootHandler = init.into();
+        Ok::<_, String>(root.for_new_client(1, PubKey(s.peer_id), s.dbid))
+    });
+    let handler = match built {
+        Ok(Ok(h)) => h,
+        _ => {
+            r.count("handler.not_built");
+            return;
+        }
+    };
+    let mut htlcs = vec![];
+    let mut with_remainder = 0;
+    // `offered` here is what the counterparty offers (the holder receives): the remote side on the wire
+    for (list, side) in [(&c.offered, Htlc::REMOTE), (&c.received, Htlc::LOCAL)] {
+        for h in list.iter() {
+            let rem = if rng.chance(1, 4) { 0 } else { rng.below(1000) };
+            if rem >= 500 {
+                with_remainder += 1;
+            }
+            htlcs.push(Htlc { side, amount: h.value_sat.saturating_mul(1000).saturating_add(rem), payment_hash: model::Sha256(h.payment_hash.0), ctlv_expiry: h.cltv_expiry });
+        }
+    }
+    let msg = Message::SignRemoteCommitmentTx2(msgs::SignRemoteCommitmentTx2 {
+        remote_per_commitment_point: PubKey(point.serialize()),
+        commitment_number: s.target_n,
+        feerate: c.feerate,
+        to_local_value_sat: c.to_holder,
+        to_remote_value_sat: c.to_cp,
+        htlcs: Array(htlcs),
+    });
+    r.count("handler.requests");
+    match report::catch(|| handler.handle(msg)) {
+        Ok(Ok(reply)) => {
+            if let Some(rep) = reply.as_any().downcast_ref::<msgs::SignCommitmentTxWithHtlcsReply>() {
+                let sig = match Signature::from_compact(&rep.signature.signature.0) {
+                    Ok(s) => s,
+                    Err(_) => {
+                        r.count("handler.reply_signature_unparsable");
+                        return;
+                    }
+                };
+                let hsigs: Vec<Signature> = rep.htlc_signatures.iter().filter_map(|b| Signature::from_compact(&b.signature.0).ok()).collect();
+                r.count("handler.ok");
+                if with_remainder > 0 {
+                    r.count("handler.ok.with_htlc_msat_remainder_of_half_a_sat_or_more");
+                }
+                judge_phase2(ci, ctx, &node, "protocol handler (SignRemoteCommitmentTx2, HTLC amounts in msat with sub-satoshi remainders), restored-from-store", &sig, &hsigs, r);
+                r.distinct_str(&format!("handler:{}:ok:{}", ci.class(), with_remainder.min(2)));
+            } else {
+                r.count("handler.unexpected_reply_type");
+            }
+        }
+        Ok(Err(e)) => {
+            // phase 2 accepted this content on an identical signer: the handler adds no rule of its own
+            r.count("handler.refused_what_phase2_accepted");
+            r.set_add("handler_refusals", &format!("{:?}", e).chars().filter(|c| !c.is_ascii_digit()).take(100).collect::<String>());
+        }
+        Err(p) => {
+            r.count("handler.panic");
+            r.note(&format!("SignRemoteCommitmentTx2 panicked: {}", p.chars().take(120).collect::<String>()));
+        }
+    }
 }
 
 /// balances a transaction itself carries for the two parties, read by the harness from its own
@@ -1318,6 +1425,7 @@ fn run_case(ci: &CaseInfo, rng: &mut Rng, r: &mut Report, per_output_budget: usi
             }
             let canon = judge_phase2(ci, &ctx, &node_a, "restored-from-store", sig, hsigs, r);
             r.distinct_str(&format!("p2:{}:ok", ci.class()));
+            handler_entry(ci, &ctx, &world, rng, r);
             Some((*sig, canon))
         }
         Ok(Err(e)) => {
